@@ -30,6 +30,7 @@ def orders : Orders where
   chApplyPtsBreak := decide (Facts.C03.chApplyPtsSkip ≠ 0)
   ownDirect := Facts.C03.ownDirect
   chOwnDirect := Facts.C03.chOwnDirect
+  creationStoresLocal := decide (Facts.C03.creationStore = 0)
   diffLimit := Facts.C03.diffLimitUser
 
 end TdModel.C03
